@@ -1,7 +1,7 @@
 (* I_wf: every map keeps distinct keys, every index list stays duplicate-free. *)
 From Coq Require Import List ZArith Bool Lia Permutation.
 From SVC Require Import Base.AMap Base.Res Base.Dec Model.Types Model.Pricing
-  Model.Handlers Model.EndBlock Model.Step Proofs.Inv Proofs.Lemmas.
+  Model.Handlers Model.EndBlock Model.Step Proofs.Inv Proofs.Lemmas Proofs.CtxOps.
 Import ListNotations.
 Open Scope Z_scope.
 
@@ -129,13 +129,17 @@ Proof.
   - (* start *) unfold h_start, authorized in H. inv_ok H.
     match type of H with (if ?b then _ else _) = _ => destruct b end; inv_ok H; subst; wf_auto.
   - (* kill *) unfold h_kill, authorized in H. inv_ok H. subst. wf_auto.
-  - (* update ctx *) unfold h_update_ctx, authorized in H. inv_ok H. subst. wf_auto.
+  - (* update ctx *) unfold h_update_ctx, update_ctx_tail, authorized in H. inv_ok H. subst. wf_auto.
   - (* withdraw *) unfold h_withdraw in H. inv_ok H.
     destruct (prov =? 0).
     + inv_ok H. subst. apply wf_emit. eapply wf_transfer_state; eauto. wf_auto.
     + inv_ok H. subst. apply wf_emit. eapply wf_transfer_state; eauto.
       destruct (get0 prov (earned s) =? get0 owner (own_earned s)); [|destruct (_ <? 0)]; inv_ok Ha; subst; wf_auto.
   - (* transfer *) unfold h_transfer in H. inv_ok H. eapply wf_transfer_state; eauto.
+  - (* module update *) mod_shape H; wf_auto.
+  - (* module pause *) mod_shape H; wf_auto.
+  - (* module start *) mod_shape H; wf_auto.
+  - (* module kill *) mod_shape H; wf_auto.
 Qed.
 
 (* ---- EndBlock ---- *)
